@@ -85,6 +85,10 @@ func ParseFile(inputPath string) (areas []textArea, err error) {
 					continue
 				}
 
+				if field.Tag == nil { // 字段没有 tag, 无处注入, 跳过
+					continue
+				}
+
 				currentTag := field.Tag.Value
 				area := textArea{
 					Start:      int(field.Pos()),
